@@ -64,6 +64,7 @@ func paramIndex(v ssa.Value) (*ssa.Function, int) {
 }
 
 func runC04(p *Prog, r *Report, tier string) {
+	checkDomainPrune(p, r, "R-KEY.domain-prune")
 	g := p.CallGraph()
 	gs := collectorGuardSpec()
 	// (4) lockset import, reported for the template store only
